@@ -189,6 +189,30 @@ func GenC10(verifSeed uint64, run int) *Scenario {
 	// still a legal choice by key id (unlocking it costs a gpg-strength S2K,
 	// so only a few combinations per scenario)
 	w.Tree = append(w.Tree, TreeEntry{Path: "keys/m-pgp_g.asc", Kind: "file", KeyRef: "pgp_g.asc", Mode: 0o600, MTime: 1500000000})
+	// key H: another export of key G - same primary key, same passphrase, but
+	// only G's older signing subkey in the file (a per-repository export, or
+	// the file from before a subkey rotation). Used in the same process as G,
+	// before or after it: what signs is what the configured file holds, not
+	// what an earlier packaging unlocked under the same fingerprint.
+	w.Tree = append(w.Tree, TreeEntry{Path: "keys/m-pgp_h.gpg", Kind: "file", KeyRef: "pgp_h.gpg", Mode: 0o600, MTime: 1500000000})
+	hFirst := g.Bool(0.5)
+	hCases := func() {
+		setH := func(sg map[string]any) {
+			sg["key_file"] = "@SRC@keys/m-pgp_h.gpg"
+			delete(sg, "key_id")
+			delete(sg, "method")
+			delete(sg, "type")
+		}
+		plan.Cases = append(plan.Cases, Case{Format: "deb", Class: "clean", Key: "pgp_h", Env: matrixEnv, Config: variant(func(m map[string]any) {
+			setH(subMap(subMap(m, "deb"), "signature"))
+		})})
+		plan.Cases = append(plan.Cases, Case{Format: "rpm", Class: "clean", Key: "pgp_h", Env: matrixEnv, Config: variant(func(m map[string]any) {
+			setH(subMap(subMap(m, "rpm"), "signature"))
+		})})
+	}
+	if hFirst {
+		hCases()
+	}
 	for _, id := range []string{keyID("pgp_g.oldsub"), Pick(g, []string{"", keyID("pgp_g"), keyID("pgp_g.sub")})} {
 		idg := id
 		setG := func(sg map[string]any) {
@@ -211,6 +235,9 @@ func GenC10(verifSeed uint64, run int) *Scenario {
 		plan.Cases = append(plan.Cases, Case{Format: "rpm", Class: "clean", Key: "pgp_g", Env: matrixEnv, Config: variant(func(m map[string]any) {
 			setG(subMap(subMap(m, "rpm"), "signature"))
 		})})
+	}
+	if !hFirst {
+		hCases()
 	}
 	// a key id that is not a key id, and one that names no key of the file: no
 	// key can be selected, signing fails (whatever the method)
